@@ -489,12 +489,10 @@ func (req *Request) getDistributedResponse(ctx context.Context) (*Response, erro
 
 		if node.isMe {
 			// answer locally
-			req.SendStatsData = true
-			res, _, err := NewResponse(ctx, req, nil)
+			res, _, err := NewResponse(ctx, req.buildDistributedLocalRequest(), nil)
 			if err != nil {
 				return nil, err
 			}
-			req.SendStatsData = false
 			if res.result == nil {
 				res.SetResultData()
 			}
@@ -596,6 +594,41 @@ func (req *Request) getSubBackends(allBackendsRequested bool, nodeBackends []str
 	}
 
 	return
+}
+
+// buildDistributedLocalRequest returns the part of a distributed request which is answered by this node itself.
+// Like the sub requests sent to the partner nodes it asks for the first limit + offset rows and for the raw
+// stats data, offset and limit are applied to the merged result.
+func (req *Request) buildDistributedLocalRequest() *Request {
+	localReq := &Request{
+		lmd:                 req.lmd,
+		Table:               req.Table,
+		Columns:             req.Columns,
+		RequestColumns:      req.RequestColumns,
+		Filter:              req.Filter,
+		FilterStr:           req.FilterStr,
+		NumFilter:           req.NumFilter,
+		Stats:               req.Stats,
+		StatsGrouped:        req.StatsGrouped,
+		SendStatsData:       true,
+		Sort:                req.Sort,
+		AuthUser:            req.AuthUser,
+		Backends:            req.Backends,
+		BackendsMap:         req.BackendsMap,
+		BackendErrors:       req.BackendErrors,
+		OutputFormat:        req.OutputFormat,
+		WaitTrigger:         req.WaitTrigger,
+		WaitObject:          req.WaitObject,
+		WaitTimeout:         req.WaitTimeout,
+		WaitCondition:       req.WaitCondition,
+		WaitConditionNegate: req.WaitConditionNegate,
+	}
+	if req.Limit != nil && *req.Limit != 0 {
+		limit := *req.Limit + req.Offset
+		localReq.Limit = &limit
+	}
+
+	return localReq
 }
 
 func (req *Request) buildDistributedRequestData(subBackends []string) (requestData map[string]interface{}) {
